@@ -19,7 +19,9 @@ CASE_TYPE = 'MMergeKeep.case'
 CHECK_FN = 'MMergeKeep.check_case'
 SHARD_SIZE = 12
 CASE_TIMEOUT = 60
-RULE = ('case = 1..4 datasets over a small shared key universe (same key, different value in different inputs), each of '
+RULE = ('case = 1..4 datasets over a small shared key universe (same key, different value in different inputs), input '
+        'folders named so that the listing order is / is not the alphabetical order of their paths, nested rigs (members '
+        'that are rig ids, depth <= 3, ids mounted directly and through a sub-rig, shuffled insertion order), each of '
         'the 16 modelled parts missing independently in each input, a skip list, a transfer strategy, tar or folder '
         'storage per input/feature kind/type, library or tool entry point. Enumerated: every singleton skip list on '
         'both entry points, every strategy x 1..3 inputs, every presence pattern of every part over 3 inputs (thorough; '
@@ -100,6 +102,14 @@ def _pose(rng, i, salt):
 IDS = {'cam': ['cam0', 'cam1'], 'dep': ['dep0'], 'lid': ['lid0'], 'wifi': ['wifi0'], 'bt': ['bt0'],
        'gnss': ['gnss0'], 'acc': ['acc0'], 'gyr': ['gyr0'], 'mag': ['mag0']}
 ALL_IDS = [x for v in IDS.values() for x in v]
+RIG_MEMBERS = [('rig0', ['rig1', 'cam0', 'cam1', 'dep0']), ('rig1', ['rig2', 'cam0', 'cam1', 'dep0']),
+               ('rig2', ['cam0', 'cam1'])]
+# names of the input folders, by listing position: the listing order is NOT always the alphabetical order of the paths
+DIR_NAMINGS = {
+    'listed': lambda n: [f'in{i}' for i in range(n)],
+    'reversed': lambda n: [f'in{n - 1 - i}' for i in range(n)],
+    'words': lambda n: ['z_first', 'm_second', 'b_third', 'a_fourth'][:n],
+}
 REC_NAMES = {'records_camera': ['c/img0.jpg', 'c/img1.jpg', 'img2.jpg', 'c/sub/img3.jpg'],
              'records_depth': ['d/m0.depth', 'd/m1.depth', 'm2.depth'],
              'records_lidar': ['l/p0.pcd', 'l/p1.pcd', 'p2.pcd']}
@@ -119,7 +129,10 @@ def _gen_part(rng, part, i, dens, tool):
         ids = ALL_IDS if tool else [s for s in ALL_IDS if keep()]
         return {s: _sensor_desc(rng, s, i) for s in ids}
     if part == 'rigs':
-        out = [[rg, s, _pose(rng, i, j)] for rg in ('rig0', 'rig1') for j, s in enumerate(['cam0', 'cam1', 'dep0']) if keep()]
+        # nested rigs (a member may be a rig id, depth up to 3) with ids mounted both directly and through a sub-rig;
+        # the entries are shuffled: the order of insertion (sub-rig before or after its parent) is part of the input
+        out = [[rg, s, _pose(rng, i, j)] for rg, members in RIG_MEMBERS for j, s in enumerate(members) if keep()]
+        rng.shuffle(out)
         return out
     if part == 'trajectories':
         return [[t, d, _pose(rng, i, t)] for t in ts_all for d in ('cam0', 'rig0', 'lid0') if keep()]
@@ -190,8 +203,11 @@ def _gen_input(rng, i, presence, tool, dens=None, tar_p=0.4):
     return d
 
 
-def _mk(cases, mode, inputs, skip, strategy, has_out=True, origin=None):
+def _mk(cases, mode, inputs, skip, strategy, has_out=True, origin=None, naming=None):
     c = {'mode': mode, 'inputs': inputs, 'skip': list(skip), 'strategy': strategy, 'has_out': has_out}
+    if naming is None:                       # deterministic rotation over the namings, no extra random draw
+        naming = sorted(DIR_NAMINGS)[len(cases) % len(DIR_NAMINGS)]
+    c['dir_names'] = DIR_NAMINGS[naming](len(inputs))
     if origin:
         c['_kind'] = origin
     cases.append(c)
@@ -263,6 +279,33 @@ def gen_cases(rng, tier):
     # 5. no output directory (classes are filled, nothing is copied)
     for n in (1, 2, 3):
         _mk(cases, 'lib', inputs(n, False), [], 'skip', has_out=False, origin='no-output')
+    # 5a. the tool must merge in the order the inputs are LISTED, whatever their folder names
+    for naming in ('reversed', 'words'):
+        for n in (2, 3):
+            _mk(cases, 'tool', inputs(n, True, dens=0.9), [], 'copy', origin='listing-order', naming=naming)
+    # 5a'. nested rigs: an id mounted through a sub-rig and directly, across inputs and within one input,
+    #      sub-rig inserted before / after its parent; presence of (rig, member) depends on that pair only
+    I4 = QUATS[0]
+    nested = {
+        'across': [[['rig0', 'rig1', [I4, [1.0, 0.0, 0.0]]], ['rig1', 'cam0', [I4, [2.0, 0.0, 0.0]]]],
+                   [['rig0', 'cam0', [I4, [3.0, 0.0, 0.0]]], ['rig1', 'cam0', [I4, [4.0, 0.0, 0.0]]]]],
+        'across-direct-first': [[['rig0', 'cam0', [I4, [3.0, 0.0, 0.0]]]],
+                                [['rig1', 'cam0', [I4, [2.0, 0.0, 0.0]]], ['rig0', 'rig1', [I4, [1.0, 0.0, 0.0]]],
+                                 ['rig0', 'cam0', [I4, [5.0, 0.0, 0.0]]]]],
+        'within-subrig-first': [[['rig1', 'cam0', [I4, [2.0, 0.0, 0.0]]], ['rig0', 'rig1', [I4, [1.0, 0.0, 0.0]]],
+                                 ['rig0', 'cam0', [I4, [3.0, 0.0, 0.0]]]]],
+        'within-parent-first': [[['rig0', 'rig1', [I4, [1.0, 0.0, 0.0]]], ['rig0', 'cam0', [I4, [3.0, 0.0, 0.0]]],
+                                 ['rig1', 'cam0', [I4, [2.0, 0.0, 0.0]]]]],
+        'depth3': [[['rig2', 'cam0', [I4, [2.0, 0.0, 0.0]]], ['rig1', 'rig2', [I4, [1.0, 0.0, 0.0]]],
+                    ['rig0', 'rig1', [I4, [0.0, 1.0, 0.0]]]],
+                   [['rig0', 'cam0', [I4, [3.0, 0.0, 0.0]]], ['rig1', 'cam0', [I4, [6.0, 0.0, 0.0]]]]],
+    }
+    for name, rig_lists in nested.items():
+        for mode in ('lib', 'tool'):
+            ins = inputs(len(rig_lists), mode == 'tool', dens=0.5)
+            for d, rg in zip(ins, rig_lists):
+                d['rigs'] = json.loads(json.dumps(rg))
+            _mk(cases, mode, ins, [], 'skip', origin='nested-rigs-' + name)
     # 5b. the same dataset given twice: the union is the dataset itself
     for st in ('copy', 'move'):
         one = inputs(1, False, dens=0.8)
@@ -592,6 +635,12 @@ def _classify_exc(e, strategy):
     return 'other'
 
 
+def _dir_names(case):
+    names = case.get('dir_names') or [f'in{i}' for i in range(len(case['inputs']))]
+    assert len(set(names)) == len(case['inputs']) and not ({'out', 'cwd'} & set(names))
+    return names
+
+
 def run_impl(case, ctx):
     import kapture  # noqa: F401
     from kapture.io.records import TransferAction
@@ -602,7 +651,7 @@ def run_impl(case, ctx):
     os.makedirs(base)
     dirs, kobjs, stores = [], [], []
     for i, d in enumerate(case['inputs']):
-        root = os.path.join(base, f'in{i}')
+        root = os.path.join(base, _dir_names(case)[i])
         k, store = _build_dir(d, i, root)
         dirs.append(root)
         kobjs.append(k)
@@ -944,7 +993,10 @@ def classify(case, obs):
     flags = [bool(f.get('tar')) for d in case['inputs'] for k in FEAT_DIR for f in (d[k] or {}).values()]
     store = 'nofeat' if not flags else ('tar' if all(flags) else ('mixed' if any(flags) else 'dir'))
     res = obs['outcome'] if obs['outcome'] == 'ret' else 'raise-' + obs['exc_kind']
-    return f'{case["mode"]}/n={len(case["inputs"])}/{case["strategy"]}/{sk}/{store}/{res}'
+    names = _dir_names(case)
+    order = 'listed=alphabetical' if names == sorted(names) else 'listed!=alphabetical'
+    nest = 'nested-rigs' if any(r[1].startswith('rig') for d in case['inputs'] for r in (d['rigs'] or [])) else 'flat-rigs'
+    return f'{case["mode"]}/n={len(case["inputs"])}/{case["strategy"]}/{sk}/{store}/{order}/{nest}/{res}'
 
 
 def describe(case, obs):
@@ -969,7 +1021,13 @@ def shrink(case):
         if len(case['inputs']) > 1:
             c = clone()
             del c['inputs'][i]
+            if c.get('dir_names'):
+                del c['dir_names'][i]
             yield c
+    if case.get('dir_names') and case['dir_names'] != sorted(case['dir_names']):
+        c = clone()
+        c['dir_names'] = sorted(case['dir_names'])
+        yield c
     for s in case['skip']:
         c = clone()
         c['skip'].remove(s)
